@@ -95,10 +95,12 @@ func main() {
 		st := stats{Component: c.Name, Tags: map[string]int{}, Rule: c.Rule}
 		seen := map[uint64]bool{}
 		seenNT := map[uint64]bool{}
+		nBlocked := 0
 		r := rand.New(rand.NewSource(seed))
 		sr := rand.New(rand.NewSource(seed ^ 0x5eed))
 		// corpus first
-		emit := func(op string, nontrivial bool, tags ...string) {
+		var emit Emit
+		emit = func(op string, nontrivial bool, tags ...string) {
 			st.Evaluations++
 			h := fnv.New64a()
 			h.Write([]byte(op))
@@ -113,6 +115,9 @@ func main() {
 				st.Tags[t]++
 			}
 			res := c.Exec(op)
+			if strings.Contains(res, "BLOCKED") || strings.Contains(res, "stalled") {
+				nBlocked++
+			}
 			wo.WriteString(op)
 			wo.WriteByte('\n')
 			wi.WriteString(res)
@@ -123,7 +128,33 @@ func main() {
 				st.Samples[4%len(st.Samples)+sr.Intn(len(st.Samples)-4+1)%len(st.Samples)] = op + " => " + res
 			}
 		}
+		finish := func() {
+			wo.Flush()
+			wi.Flush()
+			st.Distinct = len(seen)
+			st.Nontrivial = len(seenNT)
+			st.Exhaustive = c.Exhaustive && nBlocked < 3
+			for i, s := range st.Samples {
+				if len(s) > 600 {
+					st.Samples[i] = s[:600] + "…"
+				}
+			}
+			b, _ := json.MarshalIndent(st, "", " ")
+			os.WriteFile(prefix+".stats.json", b, 0o644)
+		}
+		emit0 := emit
+		emit = func(op string, nontrivial bool, tags ...string) {
+			emit0(op, nontrivial, tags...)
+			if nBlocked >= 3 {
+				// a blocked/stalled implementation costs seconds per operation: three such results are
+				// enough evidence, stop the stream here
+				finish()
+				os.Exit(0)
+			}
+		}
 		c.Gen(r, tier, emit)
+		finish()
+		return
 		wo.Flush()
 		wi.Flush()
 		st.Distinct = len(seen)
